@@ -25,12 +25,12 @@ RULE = ("configuration = TCP with 1-3 resolved addresses (mixed families) / UNIX
         "after a failure opens a fresh socket and answers correctly; connect() happens under connect_timeout and every "
         "sendall/recv under timeout; with TLS no I/O on the raw socket; if socket()/wrap fails for some resolved "
         "addresses and works for a later one the call succeeds using that address. Refused items: a batch in which the server refuses one item (too large for it, out of memory, NOT_STORED from a proxy) and answers the others, replies delivered apart or coalesced, a fault at every socket event of the exchange and on the replies that follow the refusal. Connection-ending calls (shutdown - graceful or not - on a server that does not allow it, quit, an unknown command, incr on text, refused arguments, close) once or twice in a row, before and after ordinary calls, without any fault: the connections opened afterwards are set up like the first. Object shutdown: Client / PooledClient / HashClient over three servers (pooled or not) / the ElastiCache client (pooled or not, with and without a reconfigure_nodes()) x traffic on 0, 1 or many keys x every documented way of shutting the object down (close, quit, disconnect_all), once and again after more traffic: afterwards no socket any part of the object opened is open. Non-trivial: a fault during "
-        "connection establishment, or a failure followed by a successful reconnect, or more than one resolved address. Outage then shutdown: every sequence of up to 6 events (random: 16) over {a call to the first server after retry_timeout / at once, six calls over all servers, first server down / up, +70 s, a flush_all broadcast} on a HashClient (pooled or not, retry_attempts 0-3, 1-3 servers), then the server up and close / disconnect_all / quit: no socket may be left open (a quit() that raises is followed by close()). Faults at close events include interruptions (KeyboardInterrupt, SystemExit, a BaseException of another kind), passed on to the caller.")
+        "connection establishment, or a failure followed by a successful reconnect, or more than one resolved address. Outage then shutdown: every sequence of up to 6 events (random: 16) over {a call to the first server after retry_timeout / at once, six calls over all servers, first server down / up, +70 s, a flush_all broadcast} on a HashClient (pooled or not, retry_attempts 0-3, 1-3 servers), then the server up and close / disconnect_all / quit: no socket may be left open (a quit() that raises is followed by close()). Faults at close events include interruptions (KeyboardInterrupt, SystemExit, a BaseException of another kind), passed on to the caller. Swallowed failures: Client / PooledClient with ignore_exc=True, a read (get, gets, get_many, gat, stats) on a warm or cold connection with one fault at every socket event of it; the same history is run with ignore_exc off to learn which calls fail - a call that fails there and comes back as a miss here leaves no socket open, and the next call opens a fresh one and works.")
 MANIFEST = {
     "category": "fault_enumeration",
     "technique": "systematic single- and double-fault enumeration over every socket-level event of connection establishment and one exchange (positions from a fault-free dry run) x connection configurations + Hypothesis multi-call histories; lifecycle-log invariants",
     "text": "Every socket the client creates is a fake whose lifecycle (created, options, timeout in force at connect and at each I/O, wrapped, closed) is logged; faults are injected at every event of connection establishment and exchange for TCP with several resolved addresses, UNIX and TLS configurations, singly and in pairs; the log must show at most one open socket at any time, none after a failed call, none after close(), the right timeouts, and a working reconnect. Exhaustive over single and paired fault positions for the enumerated configurations.",
-    "note": "ignore_exc is off (a swallowed failure says nothing to the caller about the socket); a fault in close() is swallowed by design and counts as a close.",
+    "note": "ignore_exc is off except in part swallowed-failures, where which calls fail is read from a twin run of the same history with ignore_exc off; a fault in close() is swallowed by design and counts as a close.",
     "design_ref": "DESIGN.md 3/C06",
 }
 ASSUMPTIONS = [
@@ -444,11 +444,86 @@ def check_outage(case):
     return most > 0 and ("call-failed" in labels or case["ignore_exc"]), sorted(labels)
 
 
+SWALLOW_READS = [{"op": "get", "key": "a"}, {"op": "gets", "key": "a"}, {"op": "get_many", "keys": ["a", "t", "nokey"]},
+                 {"op": "gat", "key": "a", "expire": 30}, {"op": "stats"}]
+
+
+def swallowed_cases(tier, seed):
+    """ignore_exc=True: a read that fails is reported as a miss - the caller is told nothing, the socket rules are the same.
+    A warm connection, then a read with one fault at every socket event of it (every error kind), two more calls."""
+    for conf in (CONFIGS[0], CONFIGS[4], CONFIGS[6], CONFIGS[8]) if tier == "quick" else CONFIGS:
+        for kind in ("client", "pooled"):
+            for r in SWALLOW_READS:
+                if kind == "pooled" and r["op"] == "stats":
+                    continue
+                d = _base(conf, kind)
+                d["cfg"]["ignore_exc"] = True
+                d["calls"] = [dict(BASE_CALLS[0]), {"op": r}] + [dict(c) for c in FINAL]
+                yield d
+                dry = interpret(d)
+                for ev_kind, nth in dry.events_by_call[1]:
+                    for f in faultlab.faults_for_event(ev_kind, nth, ev_kind == "close"):
+                        calls = [dict(c) for c in d["calls"]]
+                        calls[1] = dict(calls[1], faults=[f])
+                        yield dict(d, calls=calls)
+                # cold: the read is the first call
+                d2 = dict(d, calls=[{"op": r}] + [dict(c) for c in FINAL])
+                dry = interpret(d2)
+                for ev_kind, nth in dry.events_by_call[0]:
+                    if ev_kind not in ("sendall", "recv"):
+                        continue
+                    for f in faultlab.faults_for_event(ev_kind, nth, False):
+                        yield dict(d2, calls=[{"op": r, "faults": [f]}] + [dict(c) for c in FINAL])
+
+
+def check_swallowed(case):
+    """The same history is run twice on the tree under test: once with ignore_exc=False (which calls fail is read from
+    there - whether a fault is harmless, like an EINTR that is retried, is not guessed) and once with ignore_exc=True.
+    A call that fails in the first run and comes back as a miss in the second must leave no socket open, and the first
+    call after it must open a fresh connection and work."""
+    kind, cfg = case["kind"], case["cfg"]
+    loud = interpret(dict(case, cfg=dict(cfg, ignore_exc=False)))
+    failed = [o[0] == "exc" for o in loud.outcomes]
+    state = {"prev_failed": False}
+    hist = [(c["op"]["op"], c.get("faults")) for c in case["calls"]]
+
+    def obs(run, i, call, out):
+        net = run.env.net
+        opened = net.open_sockets()
+        if net.max_open > 1:
+            raise Violation(["two-open-sockets", kind, "ignore_exc"], "%d sockets open at once during call %d; history %r; %s config %r" % (net.max_open, i, hist, kind, cfg))
+        if failed[i]:
+            if out[0] == "ok" and opened:
+                raise Violation(["socket-open-after-swallowed-failure", kind, call["op"]["op"]],
+                                "call %d %r fails with %r when ignore_exc is off; with ignore_exc=True it returned %r and socket(s) %r are still open; history %r; %s config %r"
+                                % (i, call["op"], loud.outcomes[i][1], _short(out[1]), [s.id for s in opened], hist, kind, cfg))
+            if out[0] == "exc" and opened:
+                raise Violation(["socket-open-after-failed-call", kind, "ignore_exc"], "socket(s) %r still open after call %d %r raised %r; history %r; %s config %r"
+                                % ([s.id for s in opened], i, call["op"], out[1], hist, kind, cfg))
+        elif state["prev_failed"] and out[0] == "ok" and not any(k == "socket" for k, _ in run.events_by_call[i]):
+            raise Violation(["no-fresh-socket", kind, "ignore_exc"], "no new socket was created by call %d, the first after a swallowed failure; history %r; %s config %r" % (i, hist, kind, cfg))
+        state["prev_failed"] = failed[i]
+    run = interpret(case, obs)
+    a, b = run.outcomes[-2], run.outcomes[-1]
+    if a != ("ok", True) or b != ("ok", b"fv"):
+        raise Violation(["no-recovery", kind, "ignore_exc"], "final fault-free set/get returned %r / %r; history %r; %s config %r" % (_short(a), _short(b), hist, kind, cfg))
+    run.client.close()
+    for s in run.env.net.sockets:
+        if not s.closed:
+            raise Violation(["leaked-socket", kind, "ignore_exc"], "socket %d was never closed after close(); history %r; %s config %r" % (s.id, hist, kind, cfg))
+    swallowed = [i for i, f in enumerate(failed) if f and run.outcomes[i][0] == "ok"]
+    labels = [kind, case.get("name", "cfg"), case["calls"][min(1, len(case["calls"]) - 3)]["op"]["op"]]
+    if swallowed:
+        labels.append("failure-swallowed")
+    return bool(swallowed), labels
+
+
 PARTS = [
     Part("outage-then-shutdown", "enum", check_outage, cases=outage_cases, exhaustive=True),
     Part("random-outages-then-shutdown", "hyp", check_outage, strategy=outage_strategy,
          examples={"quick": 400, "thorough": 20000}, shards={"quick": 4, "thorough": 16}),
     Part("object-shutdown", "enum", check_shutdown, cases=shutdown_cases, exhaustive=True),
+    Part("swallowed-failures", "enum", check_swallowed, cases=swallowed_cases, exhaustive=True),
     Part("refused-items", "enum", check, cases=refused_item_cases, exhaustive=True),
     Part("connection-ending-calls", "enum", check, cases=ending_cases, exhaustive=True),
     Part("fault-position-sweep", "enum", check, cases=sweep_cases, exhaustive=True),
